@@ -443,6 +443,11 @@ func newRig() (*rig, error) {
 		// header extraction (one POST to ExtractHeadersPath) happens once,
 		// during the warm-up request below, and never again during the run
 		cfg.ExtractHeadersTTL = 24 * time.Hour
+		if coldHeaders {
+			// the cached daemon headers have always just expired: every
+			// hijacked request makes the proxy ask the daemon again
+			cfg.ExtractHeadersTTL = time.Nanosecond
+		}
 		cfg.ExtractHeadersPath = extractHeadersPath
 		p, err := ipfsproxy.New(cfg)
 		if err != nil {
